@@ -110,8 +110,12 @@ async def do_op(sim, request):
 
         def setter(content_evaluation_result):
             body = schema.dump(content_evaluation_result)
-            # a token *inside* the data identifies it (it survives defensive copies of the evaluatable data)
-            body["hints"]["0"] = f"data-{REQ.get()}-{len(handed_out)}"
+            # a token *inside* the data identifies it (it survives defensive copies of the evaluatable data): the
+            # content evaluation result's own id field
+            import uuid
+
+            sim.data_tokens = getattr(sim, "data_tokens", 0) + 1
+            body["id"] = str(uuid.UUID(int=sim.data_tokens))
             handed_out.append(body)
             CER.set(body)
 
@@ -130,7 +134,7 @@ async def do_op(sim, request):
         if flag and op.get("has_rc"):
             # every evaluation sees its own data: whatever was set for an evaluation has been seen by that
             # evaluation's requirement-constraint evaluators (all of them ran to completion: the verdict is True)
-            unseen = [body for body in handed_out if body["hints"]["0"] not in seen_tokens]
+            unseen = [body for body in handed_out if body["id"] not in seen_tokens]
             sim.probe("validity_setter_calls", len(handed_out))
             if unseen and sim.scenario["world"].get("flavour", "sim") == "sim":
                 sim.shared_violation = (
